@@ -35,7 +35,7 @@ class World:
         r = self.rng
         self.npod += 1
         i = self.npod
-        qos = qos or r.choice(['Guaranteed', 'Guaranteed', 'Burstable', 'BestEffort'])
+        qos = qos or r.choice(['Guaranteed', 'Guaranteed', 'Burstable', 'BestEffort'] + (['Guaranteed'] * 3 if self.profile == 'iso' else []))
         if ns is None:
             ns = r.choice(['default', 'default', 'default', 'kube-system', 'prod', 'reserved-ns', 'ns-a'])
         pod = dict(id='p%03d' % i, name='pod%d' % i, ns=ns, uid='uid-%03d' % i, qos=qos, annotations=dict(ann or {}), labels={'app': 'a%d' % (i % 3)})
@@ -49,6 +49,8 @@ class World:
         if prof == 'light':
             return r.choice([100, 250, 500, 1000, 1000, 2000] if qos == 'Guaranteed' else [1, 100, 250, 500])
         if qos == 'Guaranteed':
+            if prof == 'iso':      # whole-CPU requests the size of the isolated sets of the machines (1, 2, 4 CPUs)
+                return r.choice([1000, 1000, 1000, 2000, 2000, 4000, 1500, 3000])
             if prof == 'fill':
                 return r.choice([1000, 2000, 2000, 3000, 4000, 1500, 2500, 500])
             return r.choice([100, 500, 750, 1000, 1000, 1500, 2000, 2000, 2500, 3000, 4000, 6000, 1000 * max(1, self.ncpu // 2)])
@@ -60,7 +62,7 @@ class World:
             return r.choice([0, 0, 128 * MiB])
         if self.profile == 'light':
             return r.choice([0, 64 * MiB, 128 * MiB])
-        frac = r.choice([0, 0.01, 0.05, 0.2, 0.3, 0.45, 0.6, 0.8, 1.1, 1.7]) if self.profile in ('mem', 'fill') else r.choice([0, 0.01, 0.05, 0.1, 0.3, 0.6])
+        frac = r.choice([0, 0.01, 0.05, 0.2, 0.3, 0.45, 0.6, 0.8, 1.1, 1.7]) if self.profile in ('mem', 'fill', 'mempres') else r.choice([0, 0.01, 0.05, 0.1, 0.3, 0.6])
         return int(self.nodemem * frac)
 
     def resources(self, qos, milli=None, mem=None):
@@ -68,6 +70,8 @@ class World:
         milli = self.cpu_request(qos) if milli is None else milli
         mem = self.mem_limit(qos) if mem is None else mem
         res = dict(shares=shares_of(milli), period=100000, quota=None, memlimit=mem if mem else None)
+        if mem and r.random() < 0.4:
+            res['swap'] = mem * r.choice([1, 2])      # memory+swap limit (cgroup v1 memsw semantics)
         if qos == 'Guaranteed':
             res['quota'] = milli * 100 if milli else None
         elif qos == 'Burstable' and r.random() < 0.5:
@@ -104,7 +108,7 @@ class World:
             ann[key('prefer-reserved-cpus', r.choice(scopes))] = r.choice(['true', 'true', 'false'])
         if 0.3 < p < 0.36 or self.profile == 'preserve' and p < 0.5:
             ann[key('cpu.preserve', r.choice(scopes))] = r.choice(['true', 'true', 'false'])
-        if 0.36 < p < 0.42 or self.profile == 'preserve' and 0.4 < p < 0.8:
+        if 0.36 < p < 0.42 or self.profile == 'preserve' and 0.4 < p < 0.8 or self.profile == 'mempres' and p < 0.6:
             ann[key('memory.preserve', r.choice(scopes))] = r.choice(['true', 'true', 'false'])
         if 0.42 < p < 0.47:
             ann[key('hide-hyperthreads', r.choice(scopes))] = r.choice(['true', 'false'])
@@ -126,7 +130,7 @@ class World:
             ann[key('balloon.balloons', r.choice(scopes))] = r.choice(types)
         if 0.25 < p < 0.32 or self.profile == 'preserve' and p < 0.5:
             ann[key('cpu.preserve', r.choice(scopes))] = 'true'
-        if 0.32 < p < 0.4 or self.profile == 'preserve' and 0.4 < p < 0.8:
+        if 0.32 < p < 0.4 or self.profile == 'preserve' and 0.4 < p < 0.8 or self.profile == 'mempres' and p < 0.6:
             ann[key('memory.preserve', r.choice(scopes))] = 'true'
         if 0.4 < p < 0.45:
             ann[key('hide-hyperthreads', r.choice(scopes))] = r.choice(['true', 'false'])
@@ -172,6 +176,10 @@ class World:
 
     def update(self, c, milli=None):
         pod = self.pods[c['pod']]
+        if milli is None and self.rng.random() < 0.25 and c.get('res'):
+            # the runtime re-sends the resources the container already has
+            self.emit('UpdateContainer', ctr=dict(id=c['id']), res=c['res'], tag='identical')
+            return
         res, oom, milli = self.resources(pod['qos'], milli)
         c['res'] = res
         c['_milli'] = milli
@@ -379,6 +387,8 @@ def bln_bad_configs(machine):
 
 def gen_history(rng, policy, machine, machine_path, nevents=40, profile='mixed', name='h', config=None,
                 reconfig=0.0, sync=0.0, restart=0.0, drain=True, malformed=0.0):
+    if policy == 'topology-aware' and profile in ('mixed', 'fill', 'light') and any(c['isolated'] for c in machine['cpus']) and rng.random() < 0.5:
+        profile = 'iso'      # machines with kernel-isolated CPUs: whole-CPU Guaranteed containers dominate
     w = World(rng, policy, machine, profile)
     cfg = config or (ta_config(rng, machine) if policy == 'topology-aware' else bln_config(rng, machine))
     types = [t['name'] for t in cfg.get('balloonTypes', [])] if policy == 'balloons' else []
@@ -419,7 +429,7 @@ def gen_history(rng, policy, machine, machine_path, nevents=40, profile='mixed',
         if x < 0.30 and len(live) < target or not w.pods:
             ns = None
             pod = w.new_pod()
-            if r.random() < 0.35:
+            if r.random() < (0.6 if profile == 'mempres' else 0.35):
                 pod['annotations'].update(w.ta_annotations(pod) if policy == 'topology-aware' else w.bln_annotations(pod, types))
             w.run_pod(pod)
             for k in range(r.choice([1, 1, 1, 2, 3])):
